@@ -177,6 +177,9 @@ func init() {
 }
 
 func (cmd commandFeat) Execute(conn *Conn, param string) {
+	// build the reply from a copy: appending to the package variable made the
+	// feature list grow with every FEAT of every session
+	featCmds := featCmds
 	if conn.tlsConfig != nil {
 		featCmds += " AUTH TLS\n PBSZ\n PROT\n"
 	}
